@@ -299,7 +299,10 @@ CLAIMED["C05"] = dict(
          "receive-data-path cases (small receiver windows, SACK serialised) re-run here. The DTLS receive loop and "
          "rtcrtpreceiver per-packet work are exercised by the oracle only: a real video RTCRtpReceiver is fed the RTP "
          "datagrams (also from 3 / 33 / 70 / 300 synchronisation sources) and then runs one round of its own RTCP "
-         "reporting loop, whose output must be parsable and cover every source; a real RTCRtpSender is fed the RTCP.",
+         "reporting loop, whose output must be parsable and cover every source; a real RTCRtpSender is fed the RTCP; the "
+         "receiver's real decoder thread (decoder_worker with the real VP8 / H264 / PCMU / PCMA / Opus / G722 decoders) is fed "
+         "frames of the real encoders with hostile payloads in between (empty, random, truncated, bit-flipped) and must "
+         "survive and decode the valid frames that follow.",
     technique="Coq proof (totality of fuelled/structural parsers over all byte lists) + extracted-OCaml "
               "correspondence + live fault-injection oracle",
 )
